@@ -271,7 +271,7 @@ def drive(real: Real, item: dict, tg: str) -> dict:
         return a
     if k == 'dpy':
         a = {'st': 'ok', 'xml': [], 'py': _dec_abs(None)}
-        d = Decimal((1 if c['neg'] else 0, tuple(c['co']), c['ex']))
+        d = Decimal((1 if c['neg'] else 0, tuple(c['co']) + (0,) * c.get('pad', 0), c['ex'] - c.get('pad', 0)))
         ok, xml = _stage(a, 1, real.to_xml, tg, d)
         if ok:
             a['xml'] = _chars(xml)
@@ -493,7 +493,7 @@ def _class_of(real: Real, rec: dict) -> str:
     k = c['k']
     if k in ('dpy', 'dxml'):
         # Decimal(lexical) keeps the exponent of the lexical form; str() of the python value decides the code path
-        d = Decimal(lex_str(rec['lex'])) if k == 'dxml' else Decimal((1 if c['neg'] else 0, tuple(c['co']), c['ex']))
+        d = Decimal(lex_str(rec['lex'])) if k == 'dxml' else Decimal((1 if c['neg'] else 0, tuple(c['co']) + (0,) * c.get('pad', 0), c['ex'] - c.get('pad', 0)))
         s = str(d)
         return 'str_has_negative_exponent' if 'E-' in s else 'str_has_positive_exponent' if 'E+' in s else 'str_plain'
     if k == 'lex':
@@ -539,7 +539,7 @@ def _py_in(c: dict) -> str:
         us = _num(c['ms']) * 1000 + c['sub']
         return {'float': repr(us / 10 ** 6), 'Decimal': repr(Decimal(us).scaleb(-6)), 'int': repr(us // 10 ** 6)}[c['ty']]
     if k == 'dpy':
-        return repr(Decimal((1 if c['neg'] else 0, tuple(c['co']), c['ex'])))
+        return repr(Decimal((1 if c['neg'] else 0, tuple(c['co']) + (0,) * c.get('pad', 0), c['ex'] - c.get('pad', 0))))
     if k == 'durpy':
         ns = c['sec'] * 10 ** 9 + c['us'] * 1000 + c['sub']
         return {'float': repr(ns / 10 ** 9), 'Decimal': repr(Decimal(ns).scaleb(-9)), 'int': repr(c['sec'])}[c['ty']]
@@ -801,7 +801,7 @@ def check(run, replay_path=None):
     for r in records:
         if r['c']['k'] == 'dpy' and r['a']['st'] == 'ok' and r['a']['py']['special'] == 'none':
             c, p = r['c'], r['a']['py']
-            if Decimal((1 if c['neg'] else 0, tuple(c['co']), c['ex'])) != Decimal((1 if p['neg'] else 0, tuple(p['co']), p['ex'])):
+            if Decimal((1 if c['neg'] else 0, tuple(c['co']) + (0,) * c.get('pad', 0), c['ex'] - c.get('pad', 0))) != Decimal((1 if p['neg'] else 0, tuple(p['co']), p['ex'])):
                 changed += 1
     run.note('dpy_records_with_changed_value_incl_beyond_18_digits', changed)
     run.assumptions += [
